@@ -43,7 +43,7 @@ func c41trieCheck(tr *Trie[int], model map[string]int, q string) (string, string
 
 func TestVerifC41Trie(t *testing.T) {
 	thorough := os.Getenv("VERIF_TIER") == "thorough"
-	evals, sets := 0, 0
+	evals, sets, nontrivial := 0, 0, 0
 	fails := map[string]int{}
 	fail := func(c, d, ctx string) {
 		if c == "" {
@@ -101,6 +101,17 @@ func TestVerifC41Trie(t *testing.T) {
 			model[k] = i + 1
 		}
 		sets++
+		nested := false
+		for a := range model {
+			for b := range model {
+				if a != b && len(a) < len(b) && b[:len(a)] == a {
+					nested = true
+				}
+			}
+		}
+		if nested { // non-trivial: one inserted key is a proper prefix of another
+			nontrivial++
+		}
 		if sets%997 == 5 && len(samples) < 3 {
 			samples = append(samples, fmt.Sprintf("%q", ks))
 		}
@@ -151,6 +162,7 @@ func TestVerifC41Trie(t *testing.T) {
 			}
 		}
 		sets++
+		nontrivial++ // random sets of >=150 keys over 9 byte values always hold nested keys
 		// the listing must also be complete for queries that run off the trie
 		qs := make([]string, 0, len(model))
 		for k := range model {
@@ -166,5 +178,5 @@ func TestVerifC41Trie(t *testing.T) {
 	for len(samples) < 3 {
 		samples = append(samples, "")
 	}
-	fmt.Printf("BOUNDED: {\"evaluations\":%d,\"distinct\":%d,\"rule\":\"%s key sets over the 13 keys of length <=2 on {a,b,q} (shuffled insertion order, one key inserted twice) x all %d queries of length <=3 on {a,b,q,0xff} (%d sets), plus %d seeded random branching key sets of 150..1050 keys (thorough: also 40000) over 9 byte values that force the 8->16(->32)-bit index growth, re-checked after every 97th insertion: Prefixes(q) lists exactly the inserted keys prefixing q, shortest first, each with its latest value; Get(q) returns the longest, or (\\\"\\\",0) when there is none\",\"exhaustive\":%v,\"bound\":\"keys of length <=2 over 3 letters; growth part sampled\",\"samples\":[%q,%q,%q]}\n", evals, sets, map[bool]string{true: "all 8192", false: "every third of the 8192"}[thorough], len(queries), exh, big, thorough, samples[0], samples[1], samples[2])
+	fmt.Printf("BOUNDED: {\"evaluations\":%d,\"distinct\":%d,\"rule\":\"%s key sets over the 13 keys of length <=2 on {a,b,q} (shuffled insertion order, one key inserted twice) x all %d queries of length <=3 on {a,b,q,0xff} (%d sets), plus %d seeded random branching key sets of 150..1050 keys (thorough: also 40000) over 9 byte values that force the 8->16(->32)-bit index growth, re-checked after every 97th insertion: Prefixes(q) lists exactly the inserted keys prefixing q, shortest first, each with its latest value; Get(q) returns the longest, or (\\\"\\\",0) when there is none; distinct_nontrivial counts the distinct key sets in which one key is a proper prefix of another\",\"exhaustive\":%v,\"bound\":\"keys of length <=2 over 3 letters; growth part sampled\",\"samples\":[%q,%q,%q]}\n", evals, nontrivial, map[bool]string{true: "all 8192", false: "every third of the 8192"}[thorough], len(queries), exh, big, thorough, samples[0], samples[1], samples[2])
 }
